@@ -1212,6 +1212,7 @@ type typeFaultCase struct {
 	Sample string
 	Fault  string // "close-end", "close-mid", "quote-end", "open-end", "close-open-end"
 	Text   string `json:",omitempty"` // rendered text (rapid variant); empty = canonical
+	Tail   int    `json:",omitempty"` // 0 = two records follow; 1 = last line of the input; 2 = the same without newline
 }
 
 var typeFaults = []string{"close-end", "close-mid", "quote-end", "open-end", "close-open-end", "quote-mid"}
@@ -1241,7 +1242,14 @@ func faultText(c typeFaultCase) (string, bool) {
 	default:
 		return "", false
 	}
-	return "first.example.org. 300 IN " + sm.Name + " " + strings.Join(toks, " ") + "\nnext.example.org. 600 IN A 192.0.2.1\nlast.example.org. 600 IN A 192.0.2.2\n", true
+	line := "first.example.org. 300 IN " + sm.Name + " " + strings.Join(toks, " ")
+	switch c.Tail {
+	case 1:
+		return "zero.example.org. 600 IN A 192.0.2.0\n" + line + "\n", true
+	case 2:
+		return "zero.example.org. 600 IN A 192.0.2.0\n" + line, true
+	}
+	return line + "\nnext.example.org. 600 IN A 192.0.2.1\nlast.example.org. 600 IN A 192.0.2.2\n", true
 }
 
 func checkTypeFault(c typeFaultCase) error {
@@ -1250,7 +1258,7 @@ func checkTypeFault(c typeFaultCase) error {
 		pbt.Note(nil, false, "invalid-case")
 		return nil
 	}
-	pbt.Note([]byte(text), true, "type-fault:"+c.Sample, "fault:"+c.Fault)
+	pbt.Note([]byte(text), true, "type-fault:"+c.Sample, "fault:"+c.Fault, fmt.Sprintf("type-fault:tail=%d", c.Tail))
 	return evalTypeFault(c, text)
 }
 
@@ -1264,6 +1272,15 @@ func evalTypeFault(c typeFaultCase, text string) error {
 	if out.Err != nil {
 		// reported: nothing of the later lines may have been returned before the error unless
 		// the faulty line itself was read leniently (then the error belongs to a later line)
+		return nil
+	}
+	if strings.HasPrefix(c.Fault, "close") || strings.HasPrefix(c.Fault, "open") {
+		return pbt.Errf("%s with fault %s (tail %d): the parentheses of the line are unbalanced and no error is reported (%d records returned)\n%q", c.Sample, c.Fault, c.Tail, out.N, text)
+	}
+	if c.Tail > 0 {
+		if !hasOwner(out.First, "zero.example.org.") {
+			return pbt.Errf("%s with fault %s: no error is reported and the record before the line is missing\n%q", c.Sample, c.Fault, text)
+		}
 		return nil
 	}
 	// no error: the fault was read leniently; then the records of the following lines must all
@@ -1285,6 +1302,8 @@ func eachTypeFault(emit func(typeFaultCase)) {
 				continue
 			}
 			emit(typeFaultCase{Sample: sm.Name, Fault: f})
+			emit(typeFaultCase{Sample: sm.Name, Fault: f, Tail: 1})
+			emit(typeFaultCase{Sample: sm.Name, Fault: f, Tail: 2})
 		}
 	}
 }
@@ -1312,6 +1331,20 @@ type dirFaultCase struct {
 	Fault     int // index into directiveFaults
 	Pos       int // token boundary (0 = behind the keyword ... n = end of line)
 	Allowed   bool
+	// Tail: 0 = records follow the line; 1 = the line is the last of the input; 2 = the same
+	// without final newline; 3 = the line is the last of an included file, without newline (the
+	// includer goes on); 4 = the same with a newline and blank lines behind it
+	Tail int `json:",omitempty"`
+}
+
+// parenFault: the fault leaves the parentheses of the line unbalanced (input that ends inside
+// parentheses, or a closing one too many); that is an error wherever the line stands.
+func parenFault(f int) bool {
+	switch directiveFaults[f] {
+	case ")", ") (", "(", "( ) )":
+		return true
+	}
+	return false
 }
 
 var directiveLines = [][]string{
@@ -1338,8 +1371,28 @@ func dirFaultText(c dirFaultCase) (string, bool) {
 	if c.Pos < 1 || c.Pos > len(toks) {
 		return "", false
 	}
-	line := append(append(append([]string(nil), toks[:c.Pos]...), directiveFaults[c.Fault]), toks[c.Pos:]...)
-	return "a 60 IN A 10.0.0.1\n" + strings.Join(line, " ") + "\nb 60 IN A 10.0.0.2\nc 60 IN A 10.0.0.3\n", true
+	line := strings.Join(append(append(append([]string(nil), toks[:c.Pos]...), directiveFaults[c.Fault]), toks[c.Pos:]...), " ")
+	switch c.Tail {
+	case 0:
+		return "a 60 IN A 10.0.0.1\n" + line + "\nb 60 IN A 10.0.0.2\nc 60 IN A 10.0.0.3\n", true
+	case 1:
+		return "a 60 IN A 10.0.0.1\n" + line + "\n", true
+	case 2:
+		return "a 60 IN A 10.0.0.1\n" + line, true
+	case 3, 4:
+		return "a 60 IN A 10.0.0.1\n$INCLUDE dirfault.db\nb 60 IN A 10.0.0.2\nc 60 IN A 10.0.0.3\n", true
+	}
+	return "", false
+}
+
+// dirFaultInclude is the text of dirfault.db for the tails 3 and 4.
+func dirFaultInclude(c dirFaultCase) string {
+	toks := directiveLines[c.Directive]
+	line := strings.Join(append(append(append([]string(nil), toks[:c.Pos]...), directiveFaults[c.Fault]), toks[c.Pos:]...), " ")
+	if c.Tail == 4 {
+		return "i 60 IN A 10.0.0.9\n" + line + "\n  \n\n"
+	}
+	return "i 60 IN A 10.0.0.9\n" + line
 }
 
 func checkDirFault(c dirFaultCase) error {
@@ -1348,16 +1401,22 @@ func checkDirFault(c dirFaultCase) error {
 		pbt.Note(nil, false, "invalid-case")
 		return nil
 	}
-	pbt.Note([]byte(fmt.Sprint(c.Allowed)+text), true, "dir-fault:"+directiveLines[c.Directive][0], fmt.Sprintf("dir-fault:fault=%d", c.Fault), fmt.Sprintf("allowed=%v", c.Allowed))
+	pbt.Note([]byte(fmt.Sprint(c)), true, "dir-fault:"+directiveLines[c.Directive][0], fmt.Sprintf("dir-fault:fault=%d", c.Fault), fmt.Sprintf("allowed=%v", c.Allowed), fmt.Sprintf("dir-fault:tail=%d", c.Tail))
 	return evalDirFault(c, text)
 }
 
 func evalDirFault(c dirFaultCase, text string) error {
 	files := extraFiles()
 	files["top.db"] = text
+	if c.Tail >= 3 {
+		files["dirfault.db"] = dirFaultInclude(c)
+	}
 	cfg := parserCfg{File: "top.db", Origin: "example.", Allowed: c.Allowed, UseFS: true}
 	out, viol := runParser(files, cfg, nil)
 	show := text
+	if c.Tail >= 3 {
+		show += " | dirfault.db: " + files["dirfault.db"]
+	}
 	if len(show) > 300 {
 		show = show[:150] + "…" + show[len(show)-100:]
 	}
@@ -1367,9 +1426,27 @@ func evalDirFault(c dirFaultCase, text string) error {
 	if out.Err != nil {
 		return nil
 	}
-	if !hasOwner(out.First, "a.example.") || !hasOwner(out.First, "b.") && !hasOwner(out.First, "b.example.") && !hasOwner(out.First, "b.sub.") ||
-		!hasOwner(out.First, "c.") && !hasOwner(out.First, "c.example.") && !hasOwner(out.First, "c.sub.") {
-		return pbt.Errf("no error is reported and records of the lines around the directive are missing (%d records returned: %v)\nincludes allowed=%v\n%q", out.N, out.First, c.Allowed, show)
+	inComment := false
+	for _, t := range directiveLines[c.Directive][:c.Pos] {
+		inComment = inComment || t == ";"
+	}
+	if parenFault(c.Fault) && !inComment {
+		return pbt.Errf("unbalanced parentheses on a directive line (tail %d) and no error is reported (%d records returned: %v)\nincludes allowed=%v\n%q", c.Tail, out.N, out.First, c.Allowed, show)
+	}
+	has := func(l string) bool {
+		return hasOwner(out.First, l+".") || hasOwner(out.First, l+".example.") || hasOwner(out.First, l+".sub.")
+	}
+	need := []string{"a", "b", "c"}
+	switch c.Tail {
+	case 1, 2:
+		need = []string{"a"}
+	case 3, 4:
+		need = []string{"a", "i", "b", "c"}
+	}
+	for _, l := range need {
+		if !has(l) {
+			return pbt.Errf("no error is reported and records of the lines around the directive are missing (%d records returned: %v)\nincludes allowed=%v\n%q", out.N, out.First, c.Allowed, show)
+		}
 	}
 	return nil
 }
@@ -1380,6 +1457,10 @@ func eachDirFault(emit func(dirFaultCase)) {
 			for pos := 1; pos <= len(toks); pos++ {
 				for _, a := range []bool{false, true} {
 					emit(dirFaultCase{Directive: d, Fault: f, Pos: pos, Allowed: a})
+				}
+				// the line as the last thing of the input / of an included file
+				for tail := 1; tail <= 4; tail++ {
+					emit(dirFaultCase{Directive: d, Fault: f, Pos: pos, Allowed: true, Tail: tail})
 				}
 			}
 		}
